@@ -38,14 +38,14 @@ type FakePeer struct {
 
 // Rig is the single-node test bench.
 type Rig struct {
-	C     *Cluster
-	V     *SimNode
-	Peers map[string]*FakePeer
-	Rng   *rand.Rand
-	PCfg  PacketCfg // how fake peers wrap packets so that V accepts them
-	SCfg  StreamCfg
-	Keys  [][]byte // keys V accepts / uses (for parsing V's output)
-	NoHeader bool  // V runs with SkipInboundLabelCheck: inbound traffic carries no label header
+	C        *Cluster
+	V        *SimNode
+	Peers    map[string]*FakePeer
+	Rng      *rand.Rand
+	PCfg     PacketCfg // how fake peers wrap packets so that V accepts them
+	SCfg     StreamCfg
+	Keys     [][]byte // keys V accepts / uses (for parsing V's output)
+	NoHeader bool     // V runs with SkipInboundLabelCheck: inbound traffic carries no label header
 }
 
 // RigOpts configures V.
